@@ -512,6 +512,8 @@ pub enum Mode {
     Arbitrary,
     ExactFit,
     ExactFitPlusOne,
+    /// the fitting cost plus up to a few dozen bytes' worth of cost
+    ExactFitPlusSome,
 }
 
 #[derive(Clone, Copy, Debug, PartialEq, Eq)]
@@ -724,17 +726,19 @@ fn run_history<B: Bld>(bytes: &[u8], run: &mut Run<'_>) -> CaseResult {
         // ---- the declared cost
         let mut mode = match cost_style {
             0 => Mode::Truthful,
-            1 => match s.weighted(&[6, 3, 4, 2, 1]) {
+            1 => match s.weighted(&[6, 3, 4, 2, 1, 1]) {
                 0 => Mode::Truthful,
                 1 => Mode::TruthfulPlus,
                 2 => Mode::Arbitrary,
                 3 => Mode::ExactFit,
-                _ => Mode::ExactFitPlusOne,
+                4 => Mode::ExactFitPlusOne,
+                _ => Mode::ExactFitPlusSome,
             },
-            _ => match s.weighted(&[8, 2, 1]) {
+            _ => match s.weighted(&[8, 2, 1, 1]) {
                 0 => Mode::Truthful,
                 1 => Mode::ExactFit,
-                _ => Mode::ExactFitPlusOne,
+                2 => Mode::ExactFitPlusOne,
+                _ => Mode::ExactFitPlusSome,
             },
         };
         let before = b.cost();
@@ -753,7 +757,7 @@ fn run_history<B: Bld>(bytes: &[u8], run: &mut Run<'_>) -> CaseResult {
                     _ => (u64::from(s.u32()) * (2 * max)) >> 32,
                 };
             }
-            Mode::ExactFit | Mode::ExactFitPlusOne => {
+            Mode::ExactFit | Mode::ExactFitPlusOne | Mode::ExactFitPlusSome => {
                 // a shadow builder replays the same history, then takes the
                 // batch at declared cost 0: its cost() is the post-serialisation
                 // byte cost plus everything accepted so far
@@ -771,7 +775,19 @@ fn run_history<B: Bld>(bytes: &[u8], run: &mut Run<'_>) -> CaseResult {
                     }
                 }
                 match fit {
-                    Some(d) => declared = if mode == Mode::ExactFit { d } else { d + 1 },
+                    Some(d) => {
+                        declared = match mode {
+                            Mode::ExactFit => d,
+                            Mode::ExactFitPlusOne => d + 1,
+                            // beyond the limit by less than / more than the
+                            // slack an upper-bound estimate may have
+                            _ => match s.below(3) {
+                                0 => d + 2,
+                                1 => d + 2 + ((u64::from(s.u32()) * 24_000) >> 32),
+                                _ => d + 24_000 + ((u64::from(s.u32()) * 400_000) >> 32),
+                            },
+                        }
+                    }
                     None => {
                         run.label("exact-fit:unavailable");
                         mode = Mode::Truthful;
@@ -856,6 +872,8 @@ fn run_history<B: Bld>(bytes: &[u8], run: &mut Run<'_>) -> CaseResult {
             (Mode::ExactFit, _) => run.label("exact-fit:not-accepted"),
             (Mode::ExactFitPlusOne, Outcome::Accepted) => run.label("exact-fit+1:accepted"),
             (Mode::ExactFitPlusOne, _) => run.label("exact-fit+1:rejected"),
+            (Mode::ExactFitPlusSome, Outcome::Accepted) => run.label("exact-fit+some:accepted"),
+            (Mode::ExactFitPlusSome, _) => run.label("exact-fit+some:rejected"),
             _ => {}
         }
         attempts.push(Attempt {
@@ -938,7 +956,11 @@ fn run_history<B: Bld>(bytes: &[u8], run: &mut Run<'_>) -> CaseResult {
     if signature != expected_sig {
         return fail(
             format!("C10:{name}:signature-not-aggregate-of-accepted"),
-            format!("the returned signature is not the aggregate of the {} accepted bundles' signatures", expected.len()),
+            format!(
+                "the returned signature is not the aggregate of the signatures of the bundles of the {} accepted attempts ({} rejected or failed attempts in the history)",
+                accepted.len(),
+                attempts.len() - accepted.len()
+            ),
         );
     }
     if cost > max {
@@ -1004,34 +1026,34 @@ fn run_history<B: Bld>(bytes: &[u8], run: &mut Run<'_>) -> CaseResult {
         let mut comparable = true;
         for (k, at) in accepted.iter().enumerate() {
             let fresh_before = fresh.cost();
-            let same_estimate = fresh_before == at.before;
-            if !same_estimate {
+            if fresh_before != at.before {
                 // The interned estimate is a sum over the accepted spends and
                 // cannot legitimately depend on rejected attempts. The
-                // compressed builder's byte count may (the serializer keeps
-                // the rejected trees cached and later picks other
-                // back-references), and its initial-estimate finding shows up
-                // here too: measured, not asserted.
+                // compressed builder's byte count does (the incremental
+                // serializer keeps the rejected trees and their parent links
+                // cached after restore() and later finds other, shorter or
+                // longer, back-references): the representation is only
+                // measured.
                 if name == "interned" {
                     return fail(
                         format!("C10:{name}:rejected-attempts-changed-later-estimate"),
                         format!("before accepted attempt #{k}: cost() = {} with the rejected attempts in between, {fresh_before} in a builder that saw only the accepted attempts", at.before),
                     );
                 }
-                run.label("fresh-builder:compressed-estimate-differs-after-rejects");
+                run.label("fresh-builder:compressed:estimate-differs-after-rejects");
             }
             let r = fresh.add(&batch_refs(pool, &at.batch), at.declared, c);
             if !matches!(r, Ok((true, _))) {
-                if same_estimate {
-                    return fail(
-                        format!("C10:{name}:rejected-attempts-changed-later-acceptance"),
-                        format!(
-                            "accepted attempt #{k} (batch {:?}, declared {}) is not accepted by a builder that saw only the accepted attempts (same cost() = {fresh_before} before the call): {r:?}",
-                            at.batch, at.declared
-                        ),
-                    );
-                }
-                run.label("fresh-builder:acceptance-diverged-with-different-estimate");
+                // not a matter of representation any more: which attempts get
+                // into the block depends on an attempt that was rejected
+                let sig = format!("C10:{name}:rejected-attempt-changes-later-acceptance");
+                run.label(format!("later-acceptance-depends-on-rejected-attempt:{name}"));
+                run.ctx.known_or_fail(&sig, || {
+                    format!(
+                        "accepted attempt #{k} (batch {:?}, declared {}, cost() before the call {}) is NOT accepted by a builder that saw only the accepted attempts (cost() before the call {fresh_before}): {r:?}",
+                        at.batch, at.declared, at.before
+                    )
+                })?;
                 comparable = false;
                 break;
             }
@@ -1086,7 +1108,7 @@ fn run_history<B: Bld>(bytes: &[u8], run: &mut Run<'_>) -> CaseResult {
         };
     }
     let undo_reuse = phase == 3;
-    let exact = attempts.iter().any(|a| matches!(a.mode, Mode::ExactFit | Mode::ExactFitPlusOne));
+    let exact = attempts.iter().any(|a| matches!(a.mode, Mode::ExactFit | Mode::ExactFitPlusOne | Mode::ExactFitPlusSome));
     if undo_reuse {
         run.label("history:undo-then-reuse");
     }
@@ -1133,19 +1155,21 @@ const REQUIRED: &[&str] = &[
 pub fn property() -> Property {
     Property {
         id: "C10",
-        rule: "one case = a pool of 6–16 priced spend bundles (shared-generator bundles in careful mode with tagged-identity puzzles, 'sparse' bundles whose spends share nothing but nil, simple fallbacks; tens of bytes to >4 KiB through REMARK padding with blobs shared ACROSS bundles; some reveals in back-reference form; a few undecodable; each with its own valid G2 signature), max_block_cost_clvm in [30 M, 600 M], one of four flag sets, and a history of 1–24 add_spend_bundles calls (batch of 1–3 bundles; declared cost truthful = execution+condition cost from run_spendbundle, truthful+k, arbitrary ≤ 2·max incl. the pre-check boundary, or ExactFit/ExactFit+1 learnt from a shadow builder replaying the same history) followed by finalize, for BlockBuilder and InternedBlockBuilder. An attempt = one add_spend_bundles call (the whole batch is added or undone as a unit). NON-TRIVIAL = the history has ≥1 accepted, then ≥1 rejected, then ≥1 accepted attempt (undo followed by reuse) or contains an ExactFit/ExactFit+1 attempt for which the shadow found the fitting cost; DISTINCT by (builder, limit, flags, per attempt: bundle contents, declared cost, outcome).",
+        rule: "one case = a pool of 6-16 priced spend bundles (shared-generator bundles in careful mode with tagged-identity puzzles; 'sparse' bundles whose spends share nothing but nil - where the interned per-spend upper bound is tightest; simple fallbacks; tens of bytes to >4 KiB through REMARK padding with blobs shared ACROSS bundles; some reveals handed over in back-reference form; a few with an undecodable reveal; each with its own valid G2 aggregated_signature), max_block_cost_clvm in [30 M, 600 M] (absolute, or 10-90 % of the pool's total cost), one of four flag sets, and a history of 1-24 add_spend_bundles calls (batch of 1-3 bundles, preferring bundles not accepted yet; declared cost truthful = execution_cost + condition_cost from run_spendbundle, truthful+k, arbitrary <= 2*max incl. both sides of the pre-check boundary, or ExactFit / ExactFit+1 / ExactFit+(2..424 000) learnt from a shadow builder that replays the same history and takes the batch at cost 0) followed by finalize under catch_unwind, for BlockBuilder and InternedBlockBuilder. An ATTEMPT is one add_spend_bundles call: the whole batch has one declared cost, one limit test, one Serializer::add / allocator checkpoint and is added or undone as a unit. Model = list of accepted attempts. NON-TRIVIAL = the history has >=1 accepted, then >=1 rejected, then >=1 accepted attempt (undo followed by reuse), or contains an ExactFit(+k) attempt for which the shadow found the fitting cost; DISTINCT by (builder, limit, flags, per attempt: bundle contents, declared cost, outcome).",
         assumptions: &[
-            "run_spendbundle's execution_cost + condition_cost is the truthful declared cost of a bundle (the documented contract of add_spend_bundles); the same flags are used for pricing and for run_block_generator2",
-            "the consensus cost is compared only when every ACCEPTED attempt was truthful, no coin was accepted twice and run_block_generator2 accepts the block (block validity is not part of the statement); signatures are not validated by consensus here (DONT_VALIDATE_SIGNATURE), the returned signature is compared with the aggregate computed by the harness",
-            "decoding uses clvmr node_from_bytes_backrefs/node_to_bytes; spends are compared as (parent, plain puzzle serialization, canonical amount atom, plain solution serialization) multisets",
+            "run_spendbundle's execution_cost + condition_cost is the truthful declared cost of a bundle (the documented contract of add_spend_bundles); the same flag set prices the bundles and runs run_block_generator2 (plus INTERNED_GENERATOR for the interned builder, whose finalize charges interned vbytes; byte length for the compressed one)",
+            "the consensus cost is compared only when every ACCEPTED attempt was truthful, no coin was accepted twice and run_block_generator2 accepts the block (block validity is not part of the statement); consensus does not validate signatures here (DONT_VALIDATE_SIGNATURE): the returned signature is compared with the aggregate computed by the harness",
+            "decoding uses clvmr node_from_bytes_backrefs / node_to_bytes; spends are compared as multisets of (parent, plain puzzle serialization, canonical amount atom, plain solution serialization)",
+            "fresh-builder comparison: every attempt the builder under test accepted must also be accepted by a builder that saw only the accepted attempts, and spends and signature of the two must be equal; generator bytes, length, estimate and returned cost of the compressed builder are only measured (labels fresh-builder:compressed:*) because a different back-reference choice is a matter of representation; the interned builder's estimate must not depend on rejected attempts at all",
             "declared costs near u64::MAX and limits below 30 M are outside the generated domain",
-            "that an ExactFit attempt IS accepted is measured (required label) but not asserted: no clause of the statement obliges a builder to accept",
+            "that an ExactFit attempt IS accepted is measured (required label) but not asserted: no clause of the statement obliges a builder to accept anything",
+            "which reject branch fired is inferred from cost() before the call and the builders' MIN_COST_THRESHOLD (labels only)",
         ],
         subchecks: vec![
             SubCheck {
                 name: "compressed-builder",
                 about: "BlockBuilder: histories of add_spend_bundles + finalize against the accepted-attempts model",
-                source: Source::Random { len: 4096, quick: 80_000, thorough: 1_600_000 },
+                source: Source::Random { len: 4096, quick: 100_000, thorough: 2_000_000 },
                 run: case_compressed,
                 inflight: true,
                 min_nontrivial: 5_000,
@@ -1156,7 +1180,7 @@ pub fn property() -> Property {
                 about: "InternedBlockBuilder: histories of add_spend_bundles + finalize against the accepted-attempts model",
                 // ≈ 8× the CPU time per history of the compressed builder (one scratch
                 // Allocator per spend per call inside the builder)
-                source: Source::Random { len: 4096, quick: 30_000, thorough: 600_000 },
+                source: Source::Random { len: 4096, quick: 40_000, thorough: 800_000 },
                 run: case_interned,
                 inflight: true,
                 min_nontrivial: 5_000,
